@@ -101,7 +101,8 @@ def run(ctx):
         "liveness": "Progress under FairSpec with Held={1}: %s" % ("ok" if rl.ok else rl.violated or rl.error),
     }
     return ctx.finish("model_checking", cov_d, assumptions=[
-        "tag groups contain no Tflush and are not flushed (the Tag client interface has no flush)",
+        "the tag-group runs of this check contain no Tflush (the Tag client interface has no flush); flushes inside tag groups "
+        "(a target queued behind an older request of its tag) are model-checked, simulated and replayed by C07",
         "Tversion, handled synchronously in the receive goroutine, is excepted as the property says",
         "model constants follow the code: " + json.dumps(srvfam.detect_fixes(ctx.repo)),
     ])
